@@ -383,3 +383,22 @@ fn c09_accept_refill_resets_length() {
     std::mem::forget(fut);
     std::mem::forget(fd);
 }
+
+//@ prop: C13
+//@ tier: quick
+//@ what: the named constants of the socket API are the numbers of the Linux ABI (socket(2), send(2), recv(2), ip(7)): RecvFlag::{OOB,PEEK,WAIT_ALL,ERR_QUEUE,CMSG_CLOEXEC} = MSG_OOB 0x1, MSG_PEEK 0x2, MSG_WAITALL 0x100, MSG_ERRQUEUE 0x2000, MSG_CMSG_CLOEXEC 0x40000000; SendFlag::{OOB,DONT_ROUTE,EOR,CONFIRM,MORE,FAST_OPEN}; Domain::{UNIX,IPV4,IPV6,PACKET,VSOCK} = 1, 2, 10, 17, 40; Type::{STREAM,DGRAM,RAW,RDM,SEQPACKET,DCCP} = 1..=6; Protocol::{ICMPV4,TCP,UDP,DCCP,ICMPV6,SCTP} = 1, 6, 17, 33, 58, 132; Level::{IPV4,SOCKET,TCP,UDP,IPV6} = 0, 1, 6, 17, 41 -- the numbers are transcribed from the uapi headers, independent of the libc crate the tables are written with
+//@ bound: all listed constants
+//@ encodes: net::{RecvFlag,SendFlag,Domain,Type,Protocol,Level} constant tables
+#[kani::proof]
+fn c13_net_constant_tables() {
+    use super::{Domain, Level, Protocol, Type};
+    assert!(RecvFlag::OOB.0 == 0x1 && RecvFlag::PEEK.0 == 0x2 && RecvFlag::WAIT_ALL.0 == 0x100);
+    assert!(RecvFlag::ERR_QUEUE.0 == 0x2000 && RecvFlag::CMSG_CLOEXEC.0 == 0x4000_0000);
+    assert!(SendFlag::OOB.0 == 0x1 && SendFlag::DONT_ROUTE.0 == 0x4 && SendFlag::EOR.0 == 0x80);
+    assert!(SendFlag::CONFIRM.0 == 0x800 && SendFlag::MORE.0 == 0x8000 && SendFlag::FAST_OPEN.0 == 0x2000_0000);
+    assert!(Domain::UNIX.0 == 1 && Domain::IPV4.0 == 2 && Domain::IPV6.0 == 10 && Domain::PACKET.0 == 17 && Domain::VSOCK.0 == 40);
+    assert!(Type::STREAM.0 == 1 && Type::DGRAM.0 == 2 && Type::RAW.0 == 3 && Type::RDM.0 == 4 && Type::SEQPACKET.0 == 5 && Type::DCCP.0 == 6);
+    assert!(Protocol::ICMPV4.0 == 1 && Protocol::TCP.0 == 6 && Protocol::UDP.0 == 17 && Protocol::DCCP.0 == 33 && Protocol::ICMPV6.0 == 58 && Protocol::SCTP.0 == 132);
+    assert!(Level::IPV4.0 == 0 && Level::SOCKET.0 == 1 && Level::TCP.0 == 6 && Level::UDP.0 == 17 && Level::IPV6.0 == 41);
+    kani::cover!(true);
+}
